@@ -5,7 +5,12 @@
 (R)/(V) every configuration of the option lattice on a rotating sample of corpus fonts (all of them
     in the thorough tier): per-table compiled bytes of the original object model vs of the font
     re-imported from its dump, the files written and their include graph, and adversarial strings
-    pushed through TTX text and attribute channels — all judged by TLC (Trace_C03)."""
+    pushed through TTX text and attribute channels — all judged by TLC (Trace_C03).
+    Generated fonts (harness/c03_gen.py) add what the corpus lacks: glyph names that are adversarial for
+    per-glyph file naming and XML attributes (dumped with splitGlyphs), TrueType programs with every push
+    form / boundary operand / control structure / unknown opcode (dumped with and without disassembly),
+    and EBLC/EBDT (CBLC/CBDT) strikes over bitDepth x image format x index format (dumped in all four
+    bitmapGlyphDataFormat values)."""
 import io
 import itertools
 import logging
@@ -15,7 +20,7 @@ import re
 import shutil
 import tempfile
 
-from . import common, fonts
+from . import c03_gen, common, fonts
 from .common import MachineryError
 
 LEVEL = "model_checking"
@@ -81,15 +86,57 @@ def _top_tables(path):
     return out, refs, inline
 
 
+def _where(e):
+    """module.function of the innermost fontTools frame of an exception (a stable root-cause tag)."""
+    import traceback
+
+    for fr in reversed(traceback.extract_tb(e.__traceback__)):
+        if "fontTools" in fr.filename.replace("\\", "/"):
+            return "%s@%s.%s" % (type(e).__name__, os.path.splitext(os.path.basename(fr.filename))[0], fr.name)
+    return type(e).__name__
+
+
+def _glyph_entries(path, d, gi):
+    """The entries of a glyf table file written with splitGlyphs, read with a real XML parser: one per
+    TTGlyph element, with the included file's name (code points) and the glyph names found in it."""
+    import xml.etree.ElementTree as ET
+
+    root = ET.parse(path).getroot()
+    out = []
+    for glyf in root.iter("glyf"):
+        for el in glyf:
+            if el.tag != "TTGlyph":
+                continue
+            src = el.get("src")
+            if src is None:
+                out.append({"file": [], "holds": [gi(el.get("name"))]})
+                continue
+            fp = os.path.join(d, src)
+            holds = []
+            if os.path.isfile(fp):
+                holds = [gi(g.get("name")) for g in ET.parse(fp).getroot().iter("TTGlyph")]
+            out.append({"file": [ord(c) for c in src], "holds": holds})
+    return out
+
+
 def job(args):
     kind, src, idx, cfg, seed, work = args
     from fontTools.ttLib import TTFont, xmlToTag
 
     logging.disable(logging.CRITICAL)
+    qual = ""
     if kind == "path":
         with open(src, "rb") as fh:
             data = fh.read()
         label = "%s#%d" % (common.rel(src), idx)
+    elif kind == "gen":
+        label = src["id"]
+        try:
+            data = c03_gen.build(src)
+        except Exception as e:
+            return [{"generr": "%s: %s (%s)" % (label, _where(e), str(e)[:200])}]
+        if src["fam"] == "bitmap":
+            qual = "bitmap=%s,bitDepth=%d" % (cfg["bitmap"], src["bitDepth"])
     else:
         label, data = src
     rng = random.Random("c03-%s-%s-%d" % (label, sorted(cfg.items()), seed))
@@ -125,7 +172,7 @@ def job(args):
             F2 = TTFont(io.BytesIO(data), fontNumber=idx, recalcTimestamp=False, recalcBBoxes=False)
             F2.saveXML(main, **kw)
         except Exception as e:
-            failed = "dump-raised:" + type(e).__name__
+            failed = "dump-raised:" + _where(e)
         requested = list(only) if only else [t for t in alltags if t not in skip]
         if not failed:
             try:
@@ -141,7 +188,7 @@ def job(args):
                 G.save(buf)
                 b1 = _blobs(buf.getvalue())
             except Exception as e:
-                failed = "import-or-compile-raised:" + type(e).__name__
+                failed = "import-or-compile-raised:" + _where(e)
         tags = sorted(b0)
         bi = common.Interner()
         dumped = [(t in requested) for t in tags]
@@ -162,14 +209,18 @@ def job(args):
                         b1[t] = b0[t]
                         wsnorm.append(t)
         out.append({"k": "bytes", "label": label, "cfg": cfg, "tags": tags, "dumped": dumped, "failed": failed,
-                    "b0": [bi(b0[t]) for t in tags], "b1": [bi(b1[t]) if t in b1 else 0 for t in tags], "only": only, "skip": skip, "wsnorm": wsnorm})
-        if not failed:
+                    "b0": [bi(b0[t]) for t in tags], "b1": [bi(b1[t]) if t in b1 else 0 for t in tags], "only": only, "skip": skip, "wsnorm": wsnorm, "qual": qual})
+        if not failed.startswith("dump-raised"):
             # the layout of the dump
             entries = _parse_dump(main, cfg["split"])
             files = []
             glyf_refs = []
             nglyphfiles = 0
             ninline = 0
+            gi = common.Interner()
+            glyph_entries = []
+            glyph_order = []
+            malformed = False
             for name, srcf in entries:
                 if srcf:
                     p = os.path.join(d, srcf)
@@ -180,13 +231,20 @@ def job(args):
                             glyf_refs = refs
                             ninline = inl
                             nglyphfiles = sum(1 for r in refs if os.path.exists(os.path.join(d, r)))
+                            if cfg["splitGlyphs"]:
+                                glyph_order = [gi(n) for n in F2.getGlyphOrder()]
+                                try:
+                                    glyph_entries = _glyph_entries(p, d, gi)
+                                except Exception:  # not well-formed XML (ParseError / encoding)
+                                    malformed = True
                     else:
                         files.append({"name": srcf, "tags": ["<missing>"]})
             numGlyphs = len(F2.getGlyphOrder()) if "glyf" in F2 else 0
             out.append({"k": "dump", "label": label, "cfg": cfg, "all": alltags, "only": only, "skip": skip, "split": cfg["split"],
                         "splitGlyphs": cfg["splitGlyphs"],
                         "d": {"main": [{"tag": str(xmlToTag(n)), "src": s} for n, s in entries], "files": files, "glyfRefs": glyf_refs,
-                              "numGlyphFiles": nglyphfiles, "numGlyphs": numGlyphs, "numInlineGlyphs": ninline}})
+                              "numGlyphFiles": nglyphfiles, "numGlyphs": numGlyphs, "numInlineGlyphs": ninline,
+                              "glyphOrder": glyph_order, "glyphEntries": glyph_entries, "malformed": malformed}})
     finally:
         shutil.rmtree(d, True)
     return out
@@ -247,10 +305,14 @@ def configs(thorough, rng):
 def run(chk):
     thorough = chk.tier == "thorough"
     rng = chk.rng
-    chk.rule = ("bytes case = (font, dump configuration): compiled table bytes before vs after dump+import; dump case = files written; "
+    chk.rule = ("fonts = corpus binaries, compiled corpus TTX, and generated fonts (adversarial glyph names / TrueType programs / bitmap strikes); "
+                "bytes case = (font, dump configuration): compiled table bytes before vs after dump+import; dump case = files written; "
                 "text case = string through a TTX channel; distinct by (font, configuration) / string; non-trivial = font has >= 5 tables / string "
                 "contains a character XML treats specially")
-    r = chk.tlc("MC_TTXDump", label="dump layout lattice", timeout=600)
+    r = chk.tlc("MC_TTXDump", label="dump layout lattice + per-glyph file naming of all glyph-name pairs", timeout=900)
+    rn = chk.tlc("MC_TTXDump", cfg="MC_TTXDump_neg", label="negative: dumper records per-glyph names as written, not lower-cased", timeout=900, expect_ok=False)
+    if rn.exit == 0 or "RefOK is violated" not in rn.stdout:
+        raise MachineryError("negative configuration of MC_TTXDump did not violate RefOK: the include-graph predicate is vacuous")
     lattice = configs(thorough, rng)
     chk.notes["option_lattice"] = len(lattice)
     bins = fonts.binaries()
@@ -280,12 +342,37 @@ def run(chk):
         for s in special:
             for c in rng.sample(lattice, 6):
                 jobs.append((s[0], s[1], s[2], c, chk.seed, chk.work))
+    # generated fonts: each family with the dump configurations that matter to it
+    nls = ["\n", "\r\n", "\r"]
+    gspecs = c03_gen.specs(rng, thorough)
+    fam_count = {}
+    classes = set()
+    for k, sp in enumerate(gspecs):
+        fam = sp["fam"]
+        fam_count[fam] = fam_count.get(fam, 0) + 1
+        if fam == "names":
+            cfgs = [dict(base, splitGlyphs=True, nl=nls[k % 3]), dict(base, splitGlyphs=True, split=True, disasm=False, nl=nls[(k + 1) % 3]),
+                    dict(base, split=bool(k % 2), select=rng.choice(["all", "only", "skip"]), nl=nls[(k + 2) % 3])]
+        elif fam == "prog":
+            cfgs = [dict(base, disasm=True, nl=nls[k % 3]), dict(base, disasm=False, split=bool(k % 2), nl=nls[(k + 1) % 3]),
+                    dict(base, disasm=True, splitGlyphs=True, nl=nls[(k + 2) % 3])]
+            if thorough:
+                cfgs.append(dict(base, disasm=False, splitGlyphs=True, nl=nls[k % 3]))
+        else:
+            cfgs = [dict(base, bitmap=b, split=bool((k + j) % 2), nl=nls[(k + j) % 3]) for j, b in enumerate(["raw", "row", "bitwise", "extfile"])]
+            classes |= c03_gen.bitmap_classes(sp)
+        for c in cfgs:
+            jobs.append(("gen", sp, 0, c, chk.seed, chk.work))
+    chk.notes["generated_fonts"] = fam_count
+    chk.notes["bitmap_classes_bitDepth_imageFormat_indexFormat"] = len(classes)
     res = common.pmap(job, jobs, chunksize=2)
     traces = []
     for rs in res:
         for t in rs:
             if "skipreason" in t:
                 chk.skip(t["skipreason"])
+            elif "generr" in t:
+                raise MachineryError("a generated font could not be built: " + t["generr"])
             else:
                 traces.append(t)
     # text channels
@@ -320,11 +407,17 @@ def run(chk):
         if t["k"] == "text":
             chk.reject("%s:%s" % (c, t["channel"]), "%s via %s: %r -> %r" % (c, t["channel"], t["s"], t["back"]), t)
         else:
-            chk.reject(c, "%s on %s cfg=%s only=%s skip=%s" % (c, t["label"], t["cfg"], t.get("only"), t.get("skip")), {"label": t["label"], "cfg": t["cfg"]})
+            key = c
+            if t["k"] == "bytes" and t.get("qual") and c.split(":")[-1] in ("EBDT", "EBLC", "CBDT", "CBLC"):
+                key = "%s:%s" % (c, t["qual"])  # generated strikes have one bit depth per font: the class is part of the root cause
+            chk.reject(key, "%s on %s cfg=%s only=%s skip=%s" % (key, t["label"], t["cfg"], t.get("only"), t.get("skip")), {"label": t["label"], "cfg": t["cfg"]})
     chk.assumptions += [
         "both sides are fully decoded and compiled (derived fields are recomputed identically); head.checkSumAdjustment masked; recalcTimestamp=False",
         "partial dumps (tables= / skipTables=) are imported into a copy of the original font, as `ttx -m` does",
         "text channels exercised: name-record strings (text node) and glyph names in GlyphOrder (attribute)",
+        "generated glyph names are Latin-1 without control characters (what 'post' format 2 can carry and XML 1.0 can express)",
+        "generated bitmap image data is exactly as long as the metrics demand with zero padding bits: 'row' / 'bitwise' dumps are pixel dumps",
+        "file names are compared ignoring case for ASCII and Latin-1 letters (TTXDump!Fold)",
     ]
 
 
